@@ -3724,6 +3724,10 @@ class CaseNode(Node):
 
             # check if we need else (is this a finishing state)
             if converted_states[processing] in new_dfa.accepting_states:
+                # what follows supplies the else, but symbols an inverted set excludes must not fall into that set's own Else transition
+                explicit = actual_else - {DFTransition.Else}
+                if explicit and converted_states[processing][DFTransition.Else] is not None:
+                    converted_states[processing].transition(DFTransition(list(explicit)).to(error_handling_state).fallthrough().handles_else(), allow_replace=True)
                 continue
 
             if DFTransition.Else in actual_else:
